@@ -10,6 +10,7 @@ import sys, os, re, json, time, random, argparse, hashlib, subprocess
 sys.path.insert(0, os.path.dirname(os.path.abspath(__file__)))
 import rta
 import props
+import srcpins
 
 VERIF = rta.VERIF
 ALLOWED_AXIOMS = {
@@ -147,6 +148,12 @@ def main():
     # 2./3. correspondence and oracles on /repo's current tree
     built, blog, bwall = rta.build_harness()
     ctx = props.Ctx(pid, tier, seed, n=a.n)
+    # a modelled source file changed since the model was last validated: not a violation, but the moment to look harder
+    src_changed = srcpins.changed_in_cone(pid) if os.path.exists(srcpins.PINS) else []
+    if src_changed and tier == "quick":
+        # the slowest quick checks (C05, C07, C20: 45-100 s on the pinned tree) are doubled, the others tripled
+        ctx.escalation = int(os.environ.get("VERIF_ESCALATION", "2" if pid in ("C05", "C07", "C20") else "3"))
+        print("NOTE: %s differ(s) from source_pins.json (the tree the model was validated against): quick case counts x%d" % (", ".join(src_changed[:4]), ctx.escalation))
     violations = []          # dicts: kind, what, queries, details, failing_input(bool)
     if not built:
         violations.append(dict(kind="build", what="the oracle harness does not build against /repo's current tree",
@@ -197,6 +204,7 @@ def main():
         rule=P.rule, samples=ctx.samples[:6],
         correspondence=ctx.corr_stats, oracle=ctx.oracle_stats, distribution=ctx.distribution,
         known_findings_reproduced=sorted(printed_known),
+        source_files_changed_since_validation=src_changed, escalation=ctx.escalation,
         proof_status=P.proof_status, harness_build_s=round(bwall, 1), coq_s=round(po["wall"], 1), coqchk=po.get("coqchk"),
     )
     ev = dict(property_id=pid, tier=tier, seed=seed, level="proof", coverage=cov,
